@@ -162,7 +162,10 @@ class MagicMemoryRTL( Component ):
 
       for i in range(nports):
 
-        if s.req_stalls[i].send.val:
+        # Only process a request in the cycle it is actually handed over
+        # to the response pipe; a request held under back-pressure must
+        # not be applied to the memory again every cycle.
+        if s.req_stalls[i].send.val & s.req_stalls[i].send.rdy:
 
           # Dequeue memory request message
 
